@@ -31,7 +31,7 @@ pub static DEF: PropDef = PropDef {
 fn cases(t: Tier) -> u64 {
   match t {
     Tier::Quick => 10_000,
-    Tier::Thorough => 600_000,
+    Tier::Thorough => 120_000,
   }
 }
 
